@@ -260,10 +260,454 @@ def byte_contracts():
     return out
 
 
+# ============================================================ 7z folder layout ==
+# Abstract header view (one archive in scope; DESIGN Appendix B).  Index functions:
+Folder = ext_sort("Folder")
+Blob = ext_sort("Blob")                      # an immutable byte string (opaque)
+AFile = ext_sort("ArchiveFile")
+CoderId, CoderProps, IntList = ext_sort("CoderId"), ext_sort("CoderProps"), ext_sort("IntList")
+FileInfoS = ext_sort("FileInfo")
+S = z3.StringSort()
+
+NFOLD = z3.Int("num_folders")
+FOLD = z3.Function("folder_at", I, Folder)
+PSZ = z3.Function("pack_size", I, I)         # pack_sizes[t]
+NPACK = z3.Int("num_pack_streams")
+PACKPOS = z3.Int("pack_pos_abs")             # 32 + PackInfo.packPos
+NCOD = z3.Function("num_coders", Folder, I)
+CID = z3.Function("coder_id", Folder, I, CoderId)
+CPROP = z3.Function("coder_props", Folder, I, CoderProps)
+USZ = z3.Function("folder_unpack_sizes", Folder, IntList)
+ASLICE = z3.Function("file_bytes_at", AFile, I, I, Blob)     # f.seek(o); f.read(n)
+ALEN = z3.Function("file_len", AFile, I)
+DEC = z3.Function("decode", CoderId, CoderProps, Blob, IntList, Blob)   # uninterpreted (lzma / copy): Trust
+BLEN = z3.Function("blob_len", Blob, I)
+BSLICE = z3.Function("blob_slice", Blob, I, I, Blob)          # b[lo:hi] for 0 <= lo <= hi <= len(b)
+NFILES = z3.Int("num_files_in_list")
+FINFO = z3.Function("file_info_at", I, FileInfoS)
+ISDIR = z3.Function("fi_is_directory", FileInfoS, B)
+USIZE = z3.Function("fi_uncompressed", FileInfoS, I)
+FNAME = z3.Function("fi_filename", FileInfoS, S)
+HASF = z3.Function("folder_has_files", I, B)                 # k in _folder_to_files
+NF = z3.Function("folder_file_count", I, I)                  # len(_folder_to_files[k])
+FIDX = z3.Function("folder_file_index", I, I, I)             # _folder_to_files[k][j]
+SJ = z3.Function("safe_join", S, S, S)
+DIRNAME = z3.Function("os_path_dirname", S, S)
+
+_k, _i, _x, _f = z3.Int("k!def"), z3.Int("i!def"), z3.Const("x!def", Blob), z3.Const("f!def", Folder)
+PS = z3.RecFunction("pack_size_prefix_sum", I, I)             # sum of pack_sizes[:k]
+z3.RecAddDefinition(PS, [_k], z3.If(_k <= 0, 0, PS(_k - 1) + PSZ(_k - 1)))
+# decoder chain, last coder first: CHAIN(f, x, i) = result after i decoding steps
+CHAIN = z3.RecFunction("decode_chain", Folder, Blob, I, Blob)
+z3.RecAddDefinition(CHAIN, [_f, _x, _i], z3.If(_i <= 0, _x, DEC(CID(_f, NCOD(_f) - _i), CPROP(_f, NCOD(_f) - _i),
+                                                               CHAIN(_f, _x, _i - 1), USZ(_f))))
+# offset of the j-th entry of folder k inside the folder's output
+OFF = z3.RecFunction("substream_offset", I, I, I)
+z3.RecAddDefinition(OFF, [_k, _i], z3.If(_i <= 0, 0, OFF(_k, _i - 1) + z3.If(ISDIR(FINFO(FIDX(_k, _i - 1))), 0,
+                                                                               USIZE(FINFO(FIDX(_k, _i - 1))))))
+
+
+def in_off(k):
+    """first(k) = k: every coder chain this reader supports consumes ONE packed stream (Appendix B)."""
+    return PACKPOS + PS(k)
+
+
+def in_len(k):
+    return PSZ(k)
+
+
+def out_spec(archive, k):
+    return CHAIN(FOLD(k), ASLICE(archive, in_off(k), in_len(k)), NCOD(FOLD(k)))
+
+
+_PS_CACHE = {}
+
+
+def prefix_sum_fn(F):
+    key = F.name()
+    if key not in _PS_CACHE:
+        P = z3.RecFunction(f"{key}_prefix_sum", I, I)
+        j = z3.Int("j!ps")
+        z3.RecAddDefinition(P, [j], z3.If(j <= 0, 0, P(j - 1) + F(j - 1)))
+        _PS_CACHE[key] = P
+    return _PS_CACHE[key]
+
+
+_PS_CACHE["pack_size"] = PS
+
+
+def seq_sum(ex, st, v):
+    """builtin sum() of an int sequence view [lo, lo+n) of a function F: P(lo+n) - P(lo), P the prefix sum of F
+    (ASSUMED model of `sum`: the mathematical identity sum(F[lo:lo+n]) = P(lo+n) - P(lo))."""
+    if isinstance(v, VSeq) and v.tag and v.tag[0] in ("fn", "slice"):
+        F = v.tag[1]
+        lo = v.tag[2] if v.tag[0] == "slice" else z3.IntVal(0)
+        P = prefix_sum_fn(F)
+        return z3.simplify(P(lo + v.length) - P(lo))
+    items = ex.concrete_items(st, v)
+    if items is not None:
+        acc = z3.IntVal(0)
+        for x in items:
+            acc = acc + ops.int_term(x)
+        return acc
+    return None
+
+
+def p_intseq(F, length):
+    return Maker(lambda ex, st, name: [(length >= 0, VSeq(length, lambda i: VInt(F(i)), "int", tag=("fn", F)))], desc=f"list[int] ({F.name()})")
+
+
+def p_list1(term):
+    def mk(ex, st, name):
+        return VRef(st.alloc(HeapObj("list", [VInt(term)], fresh=False), ex.refs))
+    return Maker(mk, desc="[int]")
+
+
+class C10Executor(Executor):
+    """Pack-local models of the abstract 7z header view (all ASSUMED views are listed in ASSUMED_MODELS)."""
+
+    # -- `k in self._folder_to_files`, `self._folder_to_files[k]`
+    def contains(self, st, container, item, node):
+        if isinstance(container, VExt) and container.sort == "FolderMap" and isinstance(item, VInt):
+            return [(st, VBool(HASF(ops.int_term(item))))]
+        return super().contains(st, container, item, node)
+
+    def get_index(self, st, base, idx, node):
+        if isinstance(base, VExt) and base.sort == "FolderMap" and isinstance(idx, VInt):
+            k = ops.int_term(idx)
+            st = self.fork_raise(st, z3.Not(HASF(k)), "KeyError")
+            if st is None:
+                return []
+            st.assume(NF(k) >= 0)
+            return [(st, VSeq(NF(k), lambda j, k=k: VInt(FIDX(k, j)), "int"))]
+        return super().get_index(st, base, idx, node)
+
+    def get_slice(self, st, base, sl, node):
+        if isinstance(base, VExt) and base.sort == "Blob":
+            if sl.step is not None or sl.lower is None or sl.upper is None:
+                self.unsupported(node, "blob slice shape")
+            lo, hi = self._ev_int1(sl.lower, st, node), self._ev_int1(sl.upper, st, node)
+            # b[lo:hi] with 0 <= lo <= hi <= len(b) is exactly bytes lo..hi-1; otherwise python clips: the
+            # in-range condition is an obligation of the slicing site
+            self.add_vc("slice-in-range", f"blob@{self.call_ordinal_sub(node)}", st.pc,
+                        z3.And(0 <= lo, lo <= hi, hi <= BLEN(base.t)), loc=self.loc(node))
+            return [(st, VExt("Blob", BSLICE(base.t, lo, hi)))]
+        return super().get_slice(st, base, sl, node)
+
+    def call_ordinal_sub(self, node):
+        fnode = self.cur_fn_stack[-1] if self.cur_fn_stack else None
+        subs = [n for n in ast.walk(fnode) if isinstance(n, ast.Subscript) and isinstance(n.slice, ast.Slice)] if fnode else []
+        subs.sort(key=lambda n: (n.lineno, n.col_offset))
+        return subs.index(node) if node in subs else 0
+
+    def b_len(self, st, args, kwargs, node):
+        v = args[0]
+        if isinstance(v, VExt) and v.sort == "Blob":
+            st.assume(BLEN(v.t) >= 0)
+            return [(st, VInt(BLEN(v.t)))]
+        return super().b_len(st, args, kwargs, node)
+
+    def b_sum(self, st, args, kwargs, node):
+        t = seq_sum(self, st, args[0]) if len(args) == 1 else None
+        if t is not None:
+            return [(st, VInt(t))]
+        return super().b_sum(st, args, kwargs, node)
+
+    def seq_slice(self, st, base, sl, node):
+        res = super().seq_slice(st, base, sl, node)
+        if base.tag and base.tag[0] in ("fn", "slice"):
+            ln = base.length
+            lo0 = base.tag[2] if base.tag[0] == "slice" else z3.IntVal(0)
+            if sl.lower is None:
+                lo = z3.IntVal(0)
+            else:
+                t = self._ev_int1(sl.lower, st, node)
+                lo = z3.simplify(z3.If(t < 0, z3.If(t + ln < 0, z3.IntVal(0), t + ln), z3.If(t > ln, ln, t)))
+            for (_s, v) in res:
+                v.tag = ("slice", base.tag[1], z3.simplify(lo0 + lo))
+        return res
+
+    def b_reversed(self, st, args, kwargs, node):
+        v = args[0]
+        if isinstance(v, VSeq):
+            n, elem = v.length, v.elem
+            return [(st, VSeq(n, lambda i: elem(n - 1 - i), v.ekind, v.is_bytes))]
+        return super().b_reversed(st, args, kwargs, node)
+
+    def b_open(self, st, args, kwargs, node):
+        """open(path, 'wb'): ASSUMED to raise only the OSError family."""
+        bad = st.fork()
+        t = z3.Int(fresh_name("exc"))
+        bad.assume(z3.And(t >= 0, t < len(self.uni.names), self.uni.subclass_term(t, "OSError")))
+        self.raise_in(bad, VExc(t, {"site": "open"}))
+        f = VExt("OutFile")
+        st.ghost[("outfile", f.t.get_id())] = (args[0], args[1] if len(args) > 1 else kwargs.get("mode"))
+        return [(st, f)]
+
+
+def events(st, key):
+    return st.ghost.get(key, ())
+
+
+def new_events(lc, key):
+    return events(lc.st, key)[len(events(lc.entry, key)):]
+
+
+def m_outfile_write(ex, st, obj, args, kwargs, node):
+    """file.write(b): ASSUMED to raise only the OSError family; the write is recorded (ghost)."""
+    bad = st.fork()
+    t = z3.Int(fresh_name("exc"))
+    bad.assume(z3.And(t >= 0, t < len(ex.uni.names), ex.uni.subclass_term(t, "OSError")))
+    ex.raise_in(bad, VExc(t, {"site": "write"}))
+    path, mode = st.ghost.get(("outfile", obj.t.get_id()), (None, None))
+    st.ghost["writes"] = events(st, "writes") + ((path, mode, args[0]),)
+    return [(st, VUnk("n"))]
+
+
+def with_outfile(ex, st, cm, phase):
+    if phase == "enter":
+        return [(st, cm)]
+
+
+def os_raising(name, result=None):
+    def m(ex, st, args, kwargs, node):
+        bad = st.fork()
+        t = z3.Int(fresh_name("exc"))
+        bad.assume(z3.And(t >= 0, t < len(ex.uni.names), ex.uni.subclass_term(t, "OSError")))
+        ex.raise_in(bad, VExc(t, {"site": name}))
+        return [(st, result if result is not None else NONE)]
+    return m
+
+
+def m_afile_seek(ex, st, obj, args, kwargs, node):
+    if len(args) == 2 and isinstance(args[1], VInt) and args[1].const() == 2:
+        st.assume(ALEN(obj.t) >= 0)
+        st.ghost[common.pos_key(obj)] = ALEN(obj.t) + ops.int_term(args[0])
+        return [(st, VInt(st.ghost[common.pos_key(obj)]))]
+    return common.m_seek(ex, st, obj, args, kwargs, node)
+
+
+def m_afile_read(ex, st, obj, args, kwargs, node):
+    """archive_file.read(n) after seek(o): ASSUMED to return file_bytes_at(f, o, n) (uninterpreted content)."""
+    n = ops.int_term(args[0])
+    pos = common.bytesio_pos(st, obj)
+    common.havoc_pos(ex, st, obj)
+    return [(st, VExt("Blob", ASLICE(obj.t, pos, n)))]
+
+
+def install_layout(reg):
+    reg.ext_models[("havoc", "ArchiveFile")] = common.havoc_pos
+    reg.method_models[("ArchiveFile", "seek")] = m_afile_seek
+    reg.method_models[("ArchiveFile", "tell")] = common.m_tell
+    reg.method_models[("ArchiveFile", "read")] = m_afile_read
+    reg.method_models[("OutFile", "write")] = m_outfile_write
+    reg.ext_models[("with", "OutFile")] = with_outfile
+    reg.ext_models["os.makedirs"] = os_raising("os.makedirs")
+    reg.ext_models["os.path.dirname"] = lambda ex, st, args, kwargs, node: [(st, VStr(DIRNAME(args[0].t)))]
+    reg.attr_models[("Folder", "coders")] = lambda ex, st, o: VSeq(
+        NCOD(o.t), lambda i: VTuple([VExt("CoderId", CID(o.t, i)), VExt("CoderProps", CPROP(o.t, i))]), "coder")
+    reg.attr_models[("Folder", "unpack_sizes")] = lambda ex, st, o: VExt("IntList", USZ(o.t))
+    reg.attr_models[("FileInfo", "is_directory")] = lambda ex, st, o: VBool(ISDIR(o.t))
+    reg.attr_models[("FileInfo", "uncompressed")] = lambda ex, st, o: VInt(USIZE(o.t))
+    reg.attr_models[("FileInfo", "filename")] = lambda ex, st, o: VStr(FNAME(o.t))
+
+
+def offset_local(lc):
+    """the running offset: the unique int local assigned in the loop body that is not the loop target."""
+    st = lc.st
+    cands = [(k, v) for k, v in st.frame.env.items() if isinstance(v, VInt) and k in ("offset",)]
+    if len(cands) != 1:
+        ints = [(k, v) for k, v in st.frame.env.items() if isinstance(v, VInt) and k not in ("folder_idx", "file_idx")]
+        if len(ints) != 1:
+            raise ops.Unsupported(f"member loop: expected one running offset, found {[k for k, _ in ints]}")
+        cands = ints
+    return cands[0][1]
+
+
+def blob_local(lc, st=None):
+    """the loop's accumulator: the unique local of sort Blob (robust against renaming)."""
+    st = st or lc.st
+    vals = [(k, v) for k, v in st.frame.env.items() if isinstance(v, VExt) and v.sort == "Blob"]
+    if len(vals) != 1:
+        raise ops.Unsupported(f"decoder loop: expected one Blob local, found {[k for k, _ in vals]} in {st.frame.env}")
+    return vals[0][1]
+
+
+def p_folders():
+    return Maker(lambda ex, st, name: [(NFOLD >= 0, VSeq(NFOLD, lambda i: VExt("Folder", FOLD(i)), "Folder"))], desc="list[Folder]")
+
+
+def p_files():
+    return Maker(lambda ex, st, name: [(NFILES >= 0, VSeq(NFILES, lambda i: VExt("FileInfo", FINFO(i)), "FileInfo"))], desc="list[FileInfo]")
+
+
+def layout_contracts():
+    out = []
+
+    # ---- _apply_decoder: `decode` is uninterpreted (Appendix B); ASSUMED
+    out.append(FnContract(
+        target=f"{RD}._apply_decoder", assumed=True,
+        params=[("self", p_unk()), ("coder_id", p_ext("CoderId")), ("properties", p_ext("CoderProps")), ("data", p_ext("Blob")),
+                ("unpack_sizes", p_ext("IntList"))],
+        returns=lambda c: VExt("Blob", DEC(c.args["coder_id"].t, c.args["properties"].t, c.args["data"].t, c.args["unpack_sizes"].t)),
+        raises=[Raises(BAD, label="decoder failure / unsupported method")],
+        note="decode(coder, props, data, sizes): uninterpreted; copy = identity and lzma/lzma2 = liblzma are Trust (replayed natively)"))
+
+    # ---- _decompress_folder
+    def df_file(c):
+        sf = c.args["source_file"]
+        return sf if isinstance(sf, VExt) else c.entry.obj(c.args["self"].ref).data["_archive_file"]
+
+    def df_sum(c):
+        t = seq_sum(c.ex, c.entry, c.args["pack_sizes"])
+        if t is None:
+            raise ops.Unsupported("_decompress_folder: pack_sizes without a sum view")
+        return t
+
+    def df_returns(c):
+        f = df_file(c).t
+        fo = c.args["folder"].t
+        pp = ops.int_term(c.args["pack_pos"])
+        total = z3.If(df_sum(c) == 0, ALEN(f) - pp, df_sum(c))
+        return VExt("Blob", CHAIN(fo, ASLICE(f, pp, total), NCOD(fo)))
+
+    def df_inv(lc):
+        x0 = blob_local(lc, lc.entry).t
+        fo = lc.entry.lookup("folder").t
+        return z3.And(blob_local(lc).t == CHAIN(fo, x0, lc.i), NCOD(fo) >= 0)
+
+    out.append(FnContract(
+        target=f"{RD}._decompress_folder",
+        params=[("self", p_obj("SevenZipReader", {"_archive_file": p_ext("ArchiveFile")})), ("folder", p_ext("Folder")),
+                ("pack_pos", p_int(0)), ("pack_sizes", p_intseq(z3.Function("pack_sizes_arg", I, I), z3.Int("pack_sizes_len"))),
+                ("source_file", p_opt(p_ext("ArchiveFile")))],
+        requires=lambda c: z3.And(ops.int_term(c.args["pack_pos"]) >= 0, df_sum(c) >= 0, NCOD(c.args["folder"].t) >= 0),
+        returns=df_returns,
+        raises=[Raises(BAD, label="no coders / decoder failure")],
+        loops={0: LoopSpec(inv=df_inv, label="decoder-chain-last-coder-first")},
+        note="decodes archive[pack_pos : pack_pos + sum(pack_sizes)] through the folder's coder chain, last coder first "
+             "(empty / all-zero size list: everything from pack_pos to the end of the file -- the header case)"))
+
+    # ---- _safe_join / _mkdirs (C09 proves _safe_join's confinement; here only their exception surface matters)
+    out.append(FnContract(
+        target=f"{SEVEN}::_safe_join", assumed=True, params=[("base_dir", p_str()), ("relative_path", p_str())],
+        returns=lambda c: VStr(SJ(c.args["base_dir"].t, c.args["relative_path"].t)),
+        raises=[Raises(BAD, label="unsafe member name")], note="verified by the C09 pack (confinement); here: a function of (base, name)"))
+    out.append(FnContract(target=f"{SEVEN}::_mkdirs", params=[("path", p_str())], raises=[Raises(BAD, label="directory creation failed")]))
+
+    # ---- _extract_files_from_folder: member j of folder k = decompressed[off_j : off_j + size_j]
+    def ef_self():
+        return p_obj("SevenZipReader", {"_folder_to_files": p_ext("FolderMap"), "_files": p_files()})
+
+    def ef_requires(c):
+        k = ops.int_term(c.args["folder_idx"])
+        j = z3.Int("j!req")
+        return z3.And(HASF(k), NF(k) >= 0,
+                      z3.ForAll([j], z3.Implies(z3.And(j >= 0, j < NF(k)), z3.And(FIDX(k, j) >= 0, FIDX(k, j) < NFILES)),
+                                patterns=[FIDX(k, j)]))
+
+    def ef_inv(lc):
+        k = ops.int_term(lc.entry.lookup("folder_idx"))
+        dec = lc.entry.lookup("decompressed").t
+        base = lc.entry.lookup("base_path").t
+        i = lc.i
+        conj = [ops.int_term(offset_local(lc)) == OFF(k, i), OFF(k, i) >= 0]
+        if lc.extra.get("phase") == "preserve":
+            # the iteration that just ended handled entry i-1 of the folder: a directory entry writes nothing,
+            # any other entry is written once, to its own safe path, with its own slice of the folder output
+            fi = FINFO(FIDX(k, i - 1))
+            new = new_events(lc, "writes")
+            ok = z3.BoolVal(False)
+            if len(new) == 0:
+                ok = ISDIR(fi)
+            elif len(new) == 1:
+                path, mode, data = new[0]
+                if isinstance(path, VStr) and isinstance(data, VExt) and data.sort == "Blob" and isinstance(mode, VStr) and mode.const() == "wb":
+                    ok = z3.And(z3.Not(ISDIR(fi)), path.t == SJ(base, FNAME(fi)),
+                                data.t == BSLICE(dec, OFF(k, i - 1), OFF(k, i - 1) + USIZE(fi)))
+            conj.append(ok)
+        return z3.And(conj)
+
+    out.append(FnContract(
+        target=f"{RD}._extract_files_from_folder",
+        params=[("self", ef_self()), ("base_path", p_str()), ("folder_idx", p_int(0)), ("decompressed", p_ext("Blob"))],
+        requires=ef_requires,
+        raises=[Raises(BAD, label="unsafe name / size beyond the folder output / file-system failure")],
+        loops={0: LoopSpec(inv=ef_inv, label="member-j-is-slice-off_j-size_j-of-the-folder-output")},
+        frame=lambda ex, st, ctx: st.ghost.__setitem__("extracted", events(st, "extracted") + ((ctx.args["folder_idx"], ctx.args["decompressed"]),)),
+        note="offset of entry j = sum of the sizes of the earlier non-directory entries of the folder"))
+
+    # ---- extractall: folder k is decoded from ITS OWN packed stream
+    def ea_self():
+        return p_obj("SevenZipReader", {"_folders": p_folders(), "_pack_sizes": p_intseq(PSZ, NPACK), "_pack_positions": p_list1(PACKPOS),
+                                        "_header_offset": p_const(32), "_folder_to_files": p_ext("FolderMap"), "_files": p_files(),
+                                        "_archive_file": p_ext("ArchiveFile")})
+
+    def ea_archive(c_or_lc):
+        st = c_or_lc.entry
+        sf = st.lookup("source_file")
+        return sf.t if isinstance(sf, VExt) else st.obj(st.lookup("self").ref).data["_archive_file"].t
+
+    def ea_requires(c):
+        j = z3.Int("j!req")
+        t = z3.Int("t!req")
+        return z3.And(
+            NPACK == NFOLD, PACKPOS >= 32,
+            z3.ForAll([t], z3.Implies(z3.And(t >= 0, t < NPACK), PSZ(t) > 0), patterns=[PSZ(t)]),
+            z3.ForAll([t], z3.Implies(z3.And(t >= 0, t < NFOLD), NCOD(FOLD(t)) >= 0), patterns=[FOLD(t)]),
+            z3.ForAll([t, j], z3.Implies(z3.And(HASF(t), j >= 0, j < NF(t)), z3.And(FIDX(t, j) >= 0, FIDX(t, j) < NFILES)),
+                      patterns=[FIDX(t, j)]),
+            z3.ForAll([t], z3.Implies(HASF(t), NF(t) >= 0), patterns=[NF(t)]))
+
+    def ea_hyps(c):
+        return PS(NPACK) >= 0          # lemma prefix-sum-nonneg (induction), instantiated at the number of pack streams
+
+    def ea_inv(lc):
+        arch = ea_archive(lc)
+        i = lc.i
+        conj = []
+        n_new = len(events(lc.st, "extracted")) - len(events(lc.entry, "extracted"))
+        if n_new:
+            new = new_events(lc, "extracted")
+            ok = z3.BoolVal(False)
+            if len(new) == 1:
+                kk, blob = new[0]
+                if isinstance(kk, VInt) and isinstance(blob, VExt) and blob.sort == "Blob":
+                    ok = z3.And(HASF(i - 1), ops.int_term(kk) == i - 1, blob.t == out_spec(arch, i - 1))
+            conj.append(ok)
+        elif lc.extra.get("phase") == "preserve":
+            conj.append(z3.Not(HASF(i - 1)))
+        return z3.And(conj + [PS(i) >= 0])
+
+    out.append(FnContract(
+        target=f"{RD}.extractall",
+        params=[("self", ea_self()), ("path", p_str()), ("source_file", p_opt(p_ext("ArchiveFile")))],
+        requires=ea_requires, hyps=ea_hyps,
+        raises=[Raises("ValueError", when=lambda c: z3.Length(c.args["path"].t) == 0, label="empty path"),
+                Raises(BAD, label="directory creation / decoder / member extraction failed")],
+        loops={0: LoopSpec(inv=ea_inv, label="folder-k-decoded-from-its-own-pack-stream")},
+        note="for every folder k that has files: the bytes handed to _extract_files_from_folder are "
+             "decode_chain(folder k, archive[pack_pos + sum(pack_sizes[:k]) : +pack_sizes[k]])"))
+    return out
+
+
+def ps_nonneg(upto):
+    """prefix sums of non-negative sizes are non-negative (proved by induction in lemmas())."""
+    a = z3.Int("a!psn")
+    return z3.ForAll([a], z3.Implies(z3.And(0 <= a, a <= upto), PS(a) >= 0), patterns=[PS(a)])
+
+
+def sizes_pos(upto):
+    t = z3.Int("t!sp")
+    return z3.ForAll([t], z3.Implies(z3.And(t >= 0, t < upto), PSZ(t) > 0), patterns=[PSZ(t)])
+
+
 def contracts(reg):
     install_stream(reg)
+    install_layout(reg)
     out = []
     out.extend(byte_contracts())
+    out.extend(layout_contracts())
     return out
 
 
@@ -282,7 +726,7 @@ def lemmas():
     return out
 
 
-EXECUTOR = Executor
+EXECUTOR = C10Executor
 EXECUTOR_KW = {}
 TRUSTED = []
 ASSUMED_MODELS = ["io.BytesIO.read/seek/tell on the header stream (bytes [pos, min(pos+n, len)), position advanced)",
